@@ -2027,7 +2027,9 @@ class WSGIRequest:
                     return self._stream.read(size)
 
         self.content = StreamWrapper(self._environ["wsgi.input"])
-        self.match_info = {"path_info": environ["PATH_INFO"]}
+        # PEP 3333 hands PATH_INFO over decoded as iso-8859-1; use the same
+        # re-decoded path that self.path is built from.
+        self.match_info = {"path_info": path_from_environ(environ, "PATH_INFO")}
 
     @property
     def can_read_body(self):
